@@ -291,6 +291,63 @@ def check_realign(res, g, model, desc, contig_len):
                   variant=f"{P}:{lop}", **desc)
 
 
+def check_fast_path_reads(res, g, spec, genome, desc, rng):
+    """With the realigner off a read supports a catalogued insertion iff it carries the inserted bases between the
+    same two reference bases (or at an equivalent placement): reads with the true insertion must all be credited,
+    reads carrying the same bases one base further left (another haplotype, where the placement is unique) not."""
+    import tempfile
+
+    import pysam
+    from aldy.profile import Profile
+    from aldy.sam import Sample
+
+    from ..gen import reads
+
+    T = spec["truth"]["builds"][genome]
+    ref = reads.Ref(g, T["genome_seq"])
+    probe = Sample.__new__(Sample)
+    probe.gene, probe.profile, probe._prefix = g, Profile("x"), ""
+    probe._indel_sites = {(p, o): [0, 0] for p, o in g.mutations if o[:3] in ("ins", "del")}
+    probe._indel_sites_eqs = {}
+    cands = [(p, o) for p, o in g.mutations if o.startswith("ins")]
+    if not cands:
+        return
+    scratch = util.scratch_dir()
+    empty = os.path.join(scratch, "fp_empty.bam")
+    with pysam.AlignmentFile(empty, "wb", header={"HD": {"VN": "1.6", "SO": "coordinate"},
+                                                  "SQ": [{"SN": g.chr, "LN": T["contig_len"]}]}):
+        pass
+    pysam.index(empty)
+    with pysam.AlignmentFile(empty) as sam, tempfile.TemporaryDirectory() as tmp:
+        probe._realign_indels(tmp, sam, None, True)
+    P, op = rng.choice(sorted(cands))
+    keys = [k for k, v in probe._indel_sites_eqs.items() if v == (P, op)]
+    unique = len(keys) == 1
+    lo, hi = g._lookup_range
+    if not (lo + 60 < P < hi - 60) or "N" in g[P - 50: P + 50]:
+        return
+    for label, after in (("true", P), ("shifted", P - 1)):
+        if label == "shifted" and not unique:
+            continue
+        rds = []
+        for k in range(12):
+            r = reads.make_read(ref, ({}, [], {after: op[3:]}), P - 45 + k, P + 35 + k, f"{label}{k}")
+            if r:
+                rds.append(r)
+        bam = reads.write_bam(os.path.join(scratch, f"fp_{label}.bam"), g.chr, T["contig_len"], rds)
+        smp = Sample(g, Profile("user_provided", cn_solution=["1", "1"], indelpost=False), bam)
+        on = smp._indel_sites.get((P, op), [0, 0])[1]
+        if label == "true":
+            res.check("insertion_consumed_in_place", on == len(rds),
+                      "reads carrying a catalogued insertion are not all credited to it (realigner off)",
+                      insertion=f"{P}:{op}", reads=len(rds), credited=on, **desc)
+        else:
+            res.check("insertion_consumed_in_place", on == 0,
+                      "reads carrying the inserted bases one base to the left of a uniquely placed catalogued "
+                      "insertion are credited to it (realigner off)",
+                      insertion=f"{P}:{op}", reads=len(rds), credited=on, **desc)
+
+
 def run(case):
     util.import_aldy()
     res = Res()
@@ -317,6 +374,7 @@ def run(case):
                     "strand": model.strand, "cigar": spec["yml"]["reference"]["mappings"][genome][4]}
             fps += check_gene(res, g, model, desc, truth=spec["truth"])
             check_realign(res, g, model, desc, spec["truth"]["builds"][genome]["contig_len"])
+            check_fast_path_reads(res, g, spec, genome, desc, rng)
         if case["k"] < 2:
             res.sample = dict(desc, variants=len(fps), example=fps[:3])
     res.fp = util.fingerprint([case, len(fps)])
